@@ -160,6 +160,17 @@ func (e *LinEnv) linOf(v ssa.Value, depth int) Lin {
 			if signed {
 				return e.linOf(x.X, depth+1).addScaled(e.linOf(x.Y, depth+1), -1)
 			}
+			// unsigned x - c: the mathematical difference when x >= c is known where the subtraction is made
+			if k, ok := ConstInt(x.Y); ok && k >= 0 && e.nest == 0 && x.Block() != nil {
+				a := e.linOf(x.X, depth+1)
+				e.nest++
+				noWrap := e.ProveLE0(linConst(k).addScaled(a, -1), x.Block())
+				e.nest--
+				if noWrap {
+					a.C -= k
+					return a
+				}
+			}
 		case token.MUL:
 			if k, ok := ConstInt(x.Y); ok && k >= 0 && k < 1<<20 {
 				return linConst(0).addScaled(e.linOf(x.X, depth+1), k)
@@ -265,6 +276,18 @@ func (e *LinEnv) constraintsAt(b *ssa.BasicBlock) []Lin {
 		case op == token.EQL && t, op == token.NEQ && !t:
 			le(x, y, false)
 			le(y, x, false)
+		case op == token.NEQ && t, op == token.EQL && !t:
+			// x != 0 for an unsigned x: x >= 1
+			if typeRange(c.X.Type()).Lo == 0 {
+				if k, ok := ConstInt(c.Y); ok && k == 0 {
+					le(linConst(1), x, false)
+				}
+			}
+			if typeRange(c.Y.Type()).Lo == 0 {
+				if k, ok := ConstInt(c.X); ok && k == 0 {
+					le(linConst(1), y, false)
+				}
+			}
 		}
 	}
 	return out
